@@ -2,9 +2,11 @@ package world
 
 import (
 	"context"
+	"errors"
 	"fmt"
 	"reflect"
 	"runtime"
+	"strings"
 	"sync"
 	"sync/atomic"
 	"time"
@@ -78,12 +80,12 @@ type FaultFunc func(typ string, id int64, f *FieldSpec, a ArgVal, batchMode bool
 // Env is the mutable environment the generated resolvers consult. One per bound schema.
 type Env struct {
 	// OnMutate is called by the generated mutation field bump(typ, id).
-	OnMutate func(ctx context.Context, typ string, id int64)
-	mu      sync.Mutex
-	Stats   *Stats
-	Perturb *Perturb
-	Fault   FaultFunc
-	OnCall  func(typ string, id int64, f *FieldSpec) // optional hook (C02/C17 register dependencies here)
+	OnMutate  func(ctx context.Context, typ string, id int64)
+	mu        sync.Mutex
+	Stats     *Stats
+	Perturb   *Perturb
+	Fault     FaultFunc
+	OnCall    func(typ string, id int64, f *FieldSpec) // optional hook (C02/C17 register dependencies here)
 	OnCallCtx func(ctx context.Context, typ string, id int64, f *FieldSpec)
 }
 
@@ -158,6 +160,8 @@ func BindWith(s *Spec, modes Modes, extra func(*schemabuilder.Schema)) (b *Bound
 		var goType reflect.Type
 		if os.Type == "Query" {
 			obj = schema.Query()
+		} else if os.Type == "Mutation" {
+			obj = schema.Mutation()
 		} else {
 			goType = ObjTypes[os.Type]
 			obj = schema.Object(os.Type, reflect.New(goType).Elem().Interface())
@@ -180,6 +184,20 @@ func BindWith(s *Spec, modes Modes, extra func(*schemabuilder.Schema)) (b *Bound
 			env.OnMutate(ctx, a.Typ, a.Id)
 		}
 		return true
+	})
+	// a mutation that fails the way its argument says
+	mut.FieldFunc("bumpErr", func(ctx context.Context, a BumpErrArgs) (bool, error) {
+		switch a.Kind {
+		case "canceled":
+			return false, context.Canceled
+		case "wrapped":
+			return false, fmt.Errorf("write failed: %w", context.Canceled)
+		case "safe":
+			return false, graphql.NewSafeError("mutation refused")
+		case "panic":
+			panic("mutation exploded SECRETTOKEN")
+		}
+		return false, errors.New("mutation failed SECRETTOKEN")
 	})
 	built, err := schema.Build()
 	if err != nil {
@@ -221,11 +239,21 @@ func registerField(s *Spec, env *Env, obj *schemabuilder.Object, typName string,
 			in = append(in, ArgTypes[f.Args])
 		}
 		out := []reflect.Type{retType}
+		if f.Ret == "void" {
+			out = nil
+		}
 		if f.HasErr {
 			out = append(out, errorType)
 		}
 		ft := reflect.FuncOf(in, out, false)
-		return reflect.MakeFunc(ft, func(args []reflect.Value) []reflect.Value {
+		return reflect.MakeFunc(ft, func(args []reflect.Value) (results []reflect.Value) {
+			if f.Ret == "void" {
+				defer func() {
+					if len(results) > 0 {
+						results = results[1:] // no result value
+					}
+				}()
+			}
 			i := 0
 			var ctx context.Context
 			if m.Ctx {
@@ -298,11 +326,21 @@ func registerField(s *Spec, env *Env, obj *schemabuilder.Object, typName string,
 		}
 		outMap := reflect.MapOf(indexType, retType)
 		out := []reflect.Type{outMap}
+		if f.Ret == "void" {
+			out = nil
+		}
 		if f.HasErr {
 			out = append(out, errorType)
 		}
 		ft := reflect.FuncOf(in, out, false)
-		return reflect.MakeFunc(ft, func(args []reflect.Value) []reflect.Value {
+		return reflect.MakeFunc(ft, func(args []reflect.Value) (results []reflect.Value) {
+			if f.Ret == "void" {
+				defer func() {
+					if len(results) > 0 {
+						results = results[1:] // no result map
+					}
+				}()
+			}
 			i := 0
 			var ctx context.Context
 			if m.Ctx {
@@ -366,14 +404,23 @@ func registerField(s *Spec, env *Env, obj *schemabuilder.Object, typName string,
 		}).Interface()
 	}
 
+	// a list result is never missing from the map (an empty list may be a nil slice), so a
+	// batch func over a list kind may promise NonNullable; decided by the field's seed
+	listNN := strings.HasPrefix(f.Ret, "list") && h(f.Seed, "listnn")%2 == 0
 	switch m.Kind {
 	case "batch":
+		if listNN {
+			opts = append(opts, schemabuilder.NonNullable)
+		}
 		obj.BatchFieldFunc(f.Name, mkBatch(), opts...)
 	case "batchfb":
 		switch f.Ret {
 		case "int64", "string", "enumA", "obj":
 			// batch funcs drop NonNull from non-list results unless asked; the fallback keeps
 			// it, and thunder requires both to agree
+			opts = append(opts, schemabuilder.NonNullable)
+		}
+		if listNN {
 			opts = append(opts, schemabuilder.NonNullable)
 		}
 		obj.BatchFieldFuncWithFallback(f.Name, mkBatch(), mkPlain(true), func(ctx context.Context) bool {
@@ -389,6 +436,9 @@ func registerField(s *Spec, env *Env, obj *schemabuilder.Object, typName string,
 		obj.FieldFunc(f.Name, mkPlain(false), opts...)
 	}
 }
+
+// BumpErrArgs: how the failing mutation fails.
+type BumpErrArgs struct{ Kind string }
 
 // BumpArgs are the arguments of the generated mutation.
 type BumpArgs struct {
